@@ -12,7 +12,7 @@
    returns an operation tree of the engine fragment whose results are that denotation;
    Proofs/GroupSpec.v proves the same of the specification's parser and semantics, and joins them. *)
 From RX Require Import Base.Prelude Base.InvList Tables.Consts Model.Case Model.Op Model.Engine Model.Matcher
-     Model.Compiler Spec.Syntax Spec.Sem Proofs.EngineFacts Proofs.LowerFacts Proofs.QuantLaws Proofs.FixedFacts
+     Model.Compiler Spec.Syntax Spec.Sem Proofs.EngineFacts Proofs.LowerFacts Proofs.QuantLaws Proofs.FixedFacts Proofs.OrderFacts Proofs.OrderFixed
      Proofs.PlainPattern Proofs.FrameFacts.
 
 (* ---------------------------------------------------------------- grammar trees *)
@@ -133,6 +133,25 @@ with Da (a : alt) (p : nat) : list nat :=
   match a with
   | AOne b => Db b p
   | ACons b a' => Db b p ++ Da a' p
+  end.
+
+(* the same in priority order (first = preferred): what the engine enumerates, what the
+   specification's ordered semantics enumerates; greedy quantifiers list the longer matches first *)
+Definition DqO (c : N) (k : qk) (rel : bool) (p : nat) : list nat :=
+  map fst (Sem.R fl_of input (RQuant (RChar c) (qmin k) (qmaxo k) (negb rel)) p []).
+Definition DanO (eol : bool) (p : nat) : list nat :=
+  map fst (Sem.R fl_of input (if eol then REol else RBol) p []).
+Fixpoint DbO (b : branch) (p : nat) : list nat :=
+  match b with
+  | BEnd cs => lit cs p
+  | BGrp cs cap a b' => flat_map (DbO b') (flat_map (DaO a) (lit cs p))
+  | BQ cs c k rel b' => flat_map (DbO b') (flat_map (DqO c k rel) (lit cs p))
+  | BAn cs eol b' => flat_map (DbO b') (flat_map (DanO eol) (lit cs p))
+  end
+with DaO (a : alt) (p : nat) : list nat :=
+  match a with
+  | AOne b => DbO b p
+  | ACons b a' => DbO b p ++ DaO a' p
   end.
 
 Lemma lit_nil p : p <= n -> lit [] p = [p].
@@ -688,6 +707,61 @@ Proof.
       (split; [destruct k; reflexivity|]); right; exists c; split; reflexivity.
 Qed.
 
+(* --- the same facts as equalities of lists (order and multiplicity) --- *)
+Lemma flat_map_assoc {A B C} (f : A -> list B) (g : B -> list C) (l : list A) :
+  flat_map g (flat_map f l) = flat_map (fun x => flat_map g (f x)) l.
+Proof. induction l as [|x t IH]; [reflexivity|]. cbn [flat_map]. rewrite flat_map_app, IH. reflexivity. Qed.
+Lemma fm_ext_in {A B} (f g : A -> list B) (l : list A) : (forall x, In x l -> f x = g x) -> flat_map f l = flat_map g l.
+Proof.
+  induction l as [|x t IH]; intros H; [reflexivity|]. cbn [flat_map]. rewrite (H x (or_introl eq_refl)), IH; [reflexivity|].
+  intros y Hy. apply H. right. exact Hy.
+Qed.
+Lemma fm_single (l : list nat) : flat_map (fun q => [q]) l = l.
+Proof. induction l as [|x t IH]; cbn; [reflexivity|]. rewrite IH. reflexivity. Qed.
+Lemma fm_lit_nil (l : list nat) : (forall m, In m l -> m <= n) -> flat_map (lit input ci []) l = l.
+Proof.
+  intros H. rewrite (fm_ext_in (lit input ci []) (fun q => [q])); [apply fm_single|].
+  intros m Hm. apply lit_nil. exact (H m Hm).
+Qed.
+
+Lemma sg_app_eq l1 l2 : l1 <> [] -> l2 <> [] -> forall p, sg (l1 ++ l2) p = flat_map (sg l2) (sg l1 p).
+Proof.
+  induction l1 as [|o1 t IH]; intros N1 N2 p; [contradiction|]. destruct t as [|o2 t'].
+  - cbn [app]. destruct l2 as [|x l2']; [contradiction|]. reflexivity.
+  - change (sg ((o1 :: o2 :: t') ++ l2) p) with (flat_map (sg ((o2 :: t') ++ l2)) (R o1 p)).
+    change (sg (o1 :: o2 :: t') p) with (flat_map (sg (o2 :: t')) (R o1 p)).
+    rewrite flat_map_assoc. apply flat_map_ext. intros q. apply IH; [discriminate|exact N2].
+Qed.
+Lemma R_make_sequence_eq a b p : good a -> good b -> R (make_sequence a b) p = flat_map (R b) (R a p).
+Proof.
+  intros Ha Hb. destruct (good_as_list a Ha) as [Na _]. destruct (good_as_list b Hb) as [Nb _].
+  rewrite make_sequence_list, R_seq, (sg_app_eq _ _ Na Nb), (R_as_list a). apply flat_map_ext. intros q.
+  symmetry. apply R_as_list.
+Qed.
+Lemma push_eq cur o p : goodo cur -> good o -> Ro (push cur o) p = flat_map (R o) (Ro cur p).
+Proof.
+  destruct cur as [c|]; cbn [push Ro goodo]; intros Hc Ho.
+  - apply R_make_sequence_eq; auto.
+  - cbn [flat_map]. rewrite app_nil_r. reflexivity.
+Qed.
+Lemma qop_eq c k rel p : p <= n -> R (qop c k rel) p = DqO input ci multi c k rel p.
+Proof.
+  intros Hp. unfold R, DqO. symmetry.
+  apply (lowerso_order input ci multi false K (fl_of ci multi) eq_refl eq_refl Hfit); auto.
+  - assert (H : forall p0, Rop input ci multi (OAtom [c]) p0 = [] \/ Rop input ci multi (OAtom [c]) p0 = [p0 + N.to_nat 1]).
+    { intros p0. cbn [Rop length]. destruct (Nat.ltb (length input) (p0 + 1)); [left; reflexivity|].
+      destruct (starts_with _ _ _); [right|left]; reflexivity. }
+    unfold qop. destruct rel; cbn [plaino]; (split; [exact I|]); (split; [reflexivity|]);
+      (split; [destruct k; reflexivity|]); (split; [destruct k; cbn; try discriminate; try lia|exact H]).
+  - unfold qop. destruct rel; cbn [lowerso unnc negb]; exists (RChar c);
+      (split; [destruct k; reflexivity|]); right; exists c; split; reflexivity.
+Qed.
+Lemma anchor_eq (eol : bool) p : p <= n -> R (if eol then OEol else OBol) p = DanO input ci multi eol p.
+Proof.
+  intros Hp. unfold R, DanO. symmetry.
+  apply (lowers_order input ci multi false K (fl_of ci multi) eq_refl eq_refl); auto; destruct eol; cbn; auto.
+Qed.
+
 Lemma good_choice bs : Forall good bs -> good (OChoice bs).
 Proof.
   unfold good. intros H. cbn [simple]. induction H as [|x t Hx Ht IH]; [exact I|]. split; [exact Hx|exact IH].
@@ -734,6 +808,13 @@ Proof.
   apply (lowersq_ends input ci multi false K (fl_of ci multi) eq_refl eq_refl Hfit); auto; destruct eol; cbn; auto.
 Qed.
 
+Lemma alt_op_eq bs p : bs <> [] -> R (alt_op bs) p = flat_map (fun x => R x p) (rev bs).
+Proof.
+  intros Hne. destruct bs as [|x [|y t]]; [contradiction| |].
+  - cbn [alt_op alt_op0 rev app flat_map]. rewrite app_nil_r. reflexivity.
+  - reflexivity.
+Qed.
+
 Definition P_b (b : branch) : Prop :=
   ok_b xpath b = true -> forall post st cur fuel,
     skipn (idx st) pat = show_b b ++ post -> idx st <= len -> term_b post ->
@@ -741,7 +822,8 @@ Definition P_b (b : branch) : Prop :=
     exists r st', branch_loop pat xpath ci single fuel st cur = Ok (r, st')
       /\ idx st' = idx st + length (show_b b) /\ hasbr st' = hasbr st /\ goodo r
       /\ (forall p q, p <= n -> (In q (Ro r p) <-> exists m, In m (Ro cur p) /\ In q (Db input ci multi b m)))
-      /\ (1 <= parens st -> fro cur -> fro r /\ parens st <= parens st').
+      /\ (1 <= parens st -> fro cur -> fro r /\ parens st <= parens st')
+      /\ (forall p, p <= n -> Ro r p = flat_map (DbO input ci multi b) (Ro cur p)).
 
 Definition P_a (a : alt) : Prop :=
   ok_a xpath a = true -> forall post st acc f1 f2,
@@ -752,7 +834,9 @@ Definition P_a (a : alt) : Prop :=
       /\ idx st' = idx st + length (show_a a) /\ hasbr st' = hasbr st /\ Forall good bs /\ bs <> []
       /\ (forall p q, p <= n -> ((exists x, In x bs /\ In q (R x p))
                                   <-> (exists x, In x acc /\ In q (R x p)) \/ In q (Da input ci multi a p)))
-      /\ (1 <= parens st -> Forall framed acc -> Forall framed bs /\ parens st <= parens st').
+      /\ (1 <= parens st -> Forall framed acc -> Forall framed bs /\ parens st <= parens st')
+      /\ (forall p, p <= n -> flat_map (fun x => R x p) (rev bs)
+                               = flat_map (fun x => R x p) (rev acc) ++ DaO input ci multi a p).
 
 (* a run (possibly empty) before a group: parsed into the current term, the loop goes on *)
 Lemma run_prefix cs post st cur fuel : forallb ordinary cs = true ->
@@ -762,13 +846,16 @@ Lemma run_prefix cs post st cur fuel : forallb ordinary cs = true ->
     /\ branch_loop pat xpath ci single fuel st cur = branch_loop pat xpath ci single fuel' st1 cur1
     /\ idx st1 = idx st + length cs /\ hasbr st1 = hasbr st /\ goodo cur1
     /\ (forall p q, p <= n -> (In q (Ro cur1 p) <-> exists m, In m (Ro cur p) /\ In q (lit input ci cs m)))
-    /\ parens st1 = parens st /\ (fro cur -> fro cur1).
+    /\ parens st1 = parens st /\ (fro cur -> fro cur1)
+    /\ (forall p, p <= n -> Ro cur1 p = flat_map (lit input ci cs) (Ro cur p)).
 Proof.
   intros Ho (c1 & t & -> & Hc1) Hs Hi Hf Hg.
   assert (Hst1 : stops (c1 :: t)) by (cbn; destruct Hc1 as [->|(Hx & Hc1)]; auto).
   destruct cs as [|c cs].
   - exists fuel, cur, st. split; [lia|]. split; [lia|]. split; [reflexivity|]. split; [cbn [length]; lia|].
-    split; [reflexivity|]. split; [exact Hg|]. split; [|split; [reflexivity|auto]]. intros p q Hp. split.
+    split; [reflexivity|]. split; [exact Hg|].
+    split; [|split; [reflexivity|split; [auto|intros p Hp; symmetry; apply fm_lit_nil; intros m Hm; eapply Ro_le; eauto]]].
+    intros p q Hp. split.
     + intros Hin. exists q. split; auto. rewrite lit_nil; [left; reflexivity|]. eapply Ro_le; eauto.
     + intros (m & Hm & Hq). rewrite lit_nil in Hq by (eapply Ro_le; eauto). destruct Hq as [<-|[]]. exact Hm.
   - destruct fuel as [|[|[|f]]]; try lia.
@@ -781,7 +868,7 @@ Proof.
       rewrite (is_at_hd _ _ _ c_bar Hs), (is_at_hd _ _ _ c_rparen Hs), T8, T5. cbn [negb andb].
       rewrite (piece_run f st c cs (c1 :: t) Ho Hst1 Hs Hi). cbn [rbind]. reflexivity. }
     split; [reflexivity|]. split; [reflexivity|]. split; [apply push_good; [exact Hg|exact I]|].
-    split; [|split; [reflexivity|intros Hfr; apply push_fr; [exact Hfr|exact I]]].
+    split; [|split; [reflexivity|split; [intros Hfr; apply push_fr; [exact Hfr|exact I]|intros p Hp; apply push_eq; [exact Hg|exact I]]]].
     intros p q Hp. rewrite push_sem by (auto; exact I). reflexivity.
 Qed.
 
@@ -791,11 +878,14 @@ Lemma run_prefix_q cs c k t st cur fuel : forallb ordinary cs = true -> ordinary
     /\ branch_loop pat xpath ci single fuel st cur = branch_loop pat xpath ci single fuel' st1 cur1
     /\ idx st1 = idx st + length cs /\ hasbr st1 = hasbr st /\ goodo cur1
     /\ (forall p q, p <= n -> (In q (Ro cur1 p) <-> exists m, In m (Ro cur p) /\ In q (lit input ci cs m)))
-    /\ parens st1 = parens st /\ (fro cur -> fro cur1).
+    /\ parens st1 = parens st /\ (fro cur -> fro cur1)
+    /\ (forall p, p <= n -> Ro cur1 p = flat_map (lit input ci cs) (Ro cur p)).
 Proof.
   intros Ho Oc Hs Hi Hf Hg. destruct cs as [|c0 cs].
   - exists fuel, cur, st. split; [lia|]. split; [lia|]. split; [reflexivity|]. split; [cbn [length]; lia|].
-    split; [reflexivity|]. split; [exact Hg|]. split; [|split; [reflexivity|auto]]. intros p q Hp. split.
+    split; [reflexivity|]. split; [exact Hg|].
+    split; [|split; [reflexivity|split; [auto|intros p Hp; symmetry; apply fm_lit_nil; intros m Hm; eapply Ro_le; eauto]]].
+    intros p q Hp. split.
     + intros Hin. exists q. split; auto. rewrite lit_nil; [left; reflexivity|]. eapply Ro_le; eauto.
     + intros (m & Hm & Hq). rewrite lit_nil in Hq by (eapply Ro_le; eauto). destruct Hq as [<-|[]]. exact Hm.
   - destruct fuel as [|[|[|f]]]; try lia.
@@ -808,7 +898,7 @@ Proof.
       rewrite (is_at_hd _ _ _ c_bar Hs), (is_at_hd _ _ _ c_rparen Hs), T8, T5. cbn [negb andb].
       rewrite (piece_runq f st c0 cs c k t Ho Oc Hs Hi). cbn [rbind]. reflexivity. }
     split; [reflexivity|]. split; [reflexivity|]. split; [apply push_good; [exact Hg|exact I]|].
-    split; [|split; [reflexivity|intros Hfr; apply push_fr; [exact Hfr|exact I]]].
+    split; [|split; [reflexivity|split; [intros Hfr; apply push_fr; [exact Hfr|exact I]|intros p Hp; apply push_eq; [exact Hg|exact I]]]].
     intros p q Hp. rewrite push_sem by (auto; exact I). reflexivity.
 Qed.
 
@@ -819,7 +909,8 @@ Proof.
     destruct cs as [|c cs].
     + destruct fuel as [|f]; [lia|]. exists cur, st. cbn [app length] in *.
       split; [apply branch_loop_stop; [exact Hi|rewrite Hs; exact Ht]|].
-      split; [lia|]. split; [reflexivity|]. split; [exact Hg|]. split; [|auto].
+      split; [lia|]. split; [reflexivity|]. split; [exact Hg|].
+      split; [|split; [auto|intros p Hp; cbn [DbO]; symmetry; apply fm_lit_nil; intros m Hm; eapply Ro_le; eauto]].
       intros p q Hp. cbn [Db]. split.
       * intros H. exists q. split; auto. rewrite lit_nil; [left; reflexivity|]. eapply Ro_le; eauto.
       * intros (m & Hm & Hq). rewrite lit_nil in Hq by (eapply Ro_le; eauto). destruct Hq as [<-|[]]. exact Hm.
@@ -837,7 +928,8 @@ Proof.
         - unfold set_idx. cbn [idx]. pose proof (skipn_len_le _ _ _ Hs Hi). lia.
         - unfold set_idx. cbn [idx]. rewrite (skipn_app_len _ _ _ Hs). exact Ht. }
       split; [reflexivity|]. split; [reflexivity|]. split; [apply push_good; [exact Hg|exact I]|].
-      split; [|intros Hp1 Hfr; split; [apply push_fr; [exact Hfr|exact I]|reflexivity]].
+      split; [|split; [intros Hp1 Hfr; split; [apply push_fr; [exact Hfr|exact I]|reflexivity]
+                      |intros p Hp; cbn [DbO]; apply push_eq; [exact Hg|exact I]]].
       intros p q Hp. rewrite push_sem by (auto; exact I). reflexivity.
   - (* BGrp *) intros cs cap a IHa b' IHb Hok post st cur fuel Hs Hi Ht Hf Hg.
     cbn [ok_b] in Hok. apply andb_true_iff in Hok as [Hok Okb]. apply andb_true_iff in Hok as [Hok Oka].
@@ -855,7 +947,7 @@ Proof.
     { pose proof (skipn_length (idx st) pat) as L. rewrite Hs in L. fold len in L.
       rewrite app_length in L. cbn [length] in L. rewrite !app_length in L. cbn [length] in L. rewrite app_length in L. lia. }
     destruct (run_prefix cs _ st cur fuel Ocs ltac:(eexists _, _; split; [reflexivity|left; reflexivity]) Hs Hi ltac:(lia) Hg)
-      as (fuel1 & cur1 & st1 & Hf1 & Hf1' & Eloop & Hi1 & Hb1 & Hg1 & Sem1 & Hp1 & Fr1).
+      as (fuel1 & cur1 & st1 & Hf1 & Hf1' & Eloop & Hi1 & Hb1 & Hg1 & Sem1 & Hp1 & Fr1 & Eq1).
     rewrite Eloop.
     pose proof (skipn_app_len _ _ _ Hs) as Hs1. rewrite <- Hi1 in Hs1.
     assert (Hi1' : idx st1 <= len) by lia.
@@ -865,7 +957,8 @@ Proof.
     assert (Hexpr : exists o st4, parse_expr pat xpath ci single (S f4) false st1 = Ok (o, st4)
               /\ idx st4 = idx st1 + 1 + length opt + length inner + 1 /\ hasbr st4 = hasbr st1 /\ good o
               /\ (forall p q, p <= n -> (In q (R o p) <-> In q (Da input ci multi a p)))
-              /\ (1 <= parens st1 -> framed o /\ parens st1 <= parens st4)).
+              /\ (1 <= parens st1 -> framed o /\ parens st1 <= parens st4)
+              /\ (forall p, p <= n -> R o p = DaO input ci multi a p)).
     { rewrite parse_expr_grp_S. cbv zeta. rewrite at_skipn, Hs1. cbn [hd_error]. change (40 =? c_lparen)%N with true. cbv iota.
       assert (Hopen : exists paren group st2,
                 (if Nat.ltb (idx st1 + 2) len && is_at pat (idx st1 + 1) c_qmark && is_at pat (idx st1 + 2) c_colon
@@ -896,24 +989,28 @@ Proof.
         apply (skipn_app_len (idx st1) (40%N :: opt)). cbn [app]. rewrite Hs1. reflexivity. }
       destruct (IHa Oka (41%N :: rest ++ post) st2 [] f4 f4 Hs2' ltac:(lia) ltac:(right; eexists; reflexivity)
                   ltac:(fold inner; lia) ltac:(fold inner; lia) (Forall_nil _))
-        as (o1 & st2' & bs & st3 & E1 & E2 & Hi3 & Hb3 & Gbs & Nbs & Sem & FrA).
+        as (o1 & st2' & bs & st3 & E1 & E2 & Hi3 & Hb3 & Gbs & Nbs & Sem & FrA & EqA).
       rewrite E1. cbn [rbind]. rewrite E2. cbn [rbind]. fold (alt_op bs). fold inner in Hi3.
       assert (Hs3 : skipn (idx st3) pat = 41%N :: rest ++ post).
       { rewrite Hi3. apply (skipn_app_len _ _ _ Hs2'). }
       destruct (skipn_step _ _ _ Hs3) as [_ Hlt3].
       replace (Nat.ltb (idx st3) len) with true by (symmetry; apply Nat.ltb_lt; exact Hlt3).
       rewrite (is_at_hd _ _ _ c_rparen Hs3). change (41 =? c_rparen)%N with true. cbn [andb].
+      assert (EqO : forall p, p <= n -> R (alt_op bs) p = DaO input ci multi a p).
+      { intros p Hp. rewrite (alt_op_eq bs p Nbs), (EqA p Hp). reflexivity. }
       assert (SemA : forall p q, p <= n -> (In q (R (alt_op bs) p) <-> In q (Da input ci multi a p))).
       { intros p q Hp. rewrite (alt_op_sem bs p q Nbs), (Sem p q Hp). split; [intros [(x & [] & _)|H]; exact H|auto]. }
       destruct cap.
       - eexists _, _. split; [reflexivity|]. unfold adv, set_idx. cbn [idx hasbr parens]. split; [lia|]. split; [congruence|].
         split; [unfold good; cbn [simple]; split; [apply alt_op_good; auto|discriminate]|]. split; [exact SemA|].
+        split; [|exact EqO].
         intros H1. destruct (FrA ltac:(lia) (Forall_nil _)) as [Fbs Hp3]. subst group. cbn [framed].
         split; [split; [lia|apply alt_op_framed; auto]|lia].
       - eexists _, _. split; [reflexivity|]. unfold adv, set_idx. cbn [idx hasbr parens]. split; [lia|]. split; [congruence|].
         split; [apply alt_op_good; auto|]. split; [exact SemA|].
+        split; [|exact EqO].
         intros H1. destruct (FrA ltac:(lia) (Forall_nil _)) as [Fbs Hp3]. split; [apply alt_op_framed; auto|lia]. }
-    destruct Hexpr as (og & st4 & Eexpr & Hi4 & Hb4 & Gog & Semg & Frg).
+    destruct Hexpr as (og & st4 & Eexpr & Hi4 & Hb4 & Gog & Semg & Frg & Eqg).
     assert (Hs4 : skipn (idx st4) pat = rest ++ post).
     { rewrite Hi4. replace (idx st1 + 1 + length opt + length inner + 1) with (idx st1 + length (40%N :: opt ++ inner ++ [41%N])).
       - apply (skipn_app_len (idx st1) (40%N :: opt ++ inner ++ [41%N])). rewrite Hs1. cbn [app]. f_equal.
@@ -932,11 +1029,15 @@ Proof.
     rewrite Hpiece. cbn [rbind]. fold (push cur1 og).
     destruct (IHb Okb post st4 (push cur1 og) (S (S (S f4))) Hs4 ltac:(lia) Ht ltac:(fold rest; lia)
                 (push_good _ _ Hg1 Gog))
-      as (r & st' & E & Hi' & Hb' & Gr & Sem' & Fr').
+      as (r & st' & E & Hi' & Hb' & Gr & Sem' & Fr' & Eq').
     exists r, st'. split; [exact E|]. fold rest in Hi'. split; [lia|]. split; [congruence|]. split; [exact Gr|].
     split.
-    2:{ intros H1 Hfr. destruct (Frg ltac:(lia)) as [Fog Hp4].
-        destruct (Fr' ltac:(lia) (push_fr _ _ (Fr1 Hfr) Fog)) as [Fr Hp']. split; [exact Fr|lia]. }
+    2:{ split.
+        - intros H1 Hfr. destruct (Frg ltac:(lia)) as [Fog Hp4].
+          destruct (Fr' ltac:(lia) (push_fr _ _ (Fr1 Hfr) Fog)) as [Fr Hp']. split; [exact Fr|lia].
+        - intros p Hp. rewrite (Eq' p Hp), (push_eq cur1 og p Hg1 Gog), (Eq1 p Hp). cbn [DbO].
+          rewrite !flat_map_assoc. apply fm_ext_in. intros m Hm. rewrite <- flat_map_assoc. f_equal.
+          apply fm_ext_in. intros k0 Hk0. apply Eqg. apply lit_le in Hk0. tauto. }
     intros p q Hp. rewrite (Sem' p q Hp). cbn [Db]. split.
     + intros (m & Hm & Hq). apply push_sem in Hm; auto. destruct Hm as (m1 & Hm1 & Hm).
       apply (Sem1 p m1 Hp) in Hm1. destruct Hm1 as (m0 & Hm0 & Hm1).
@@ -962,7 +1063,7 @@ Proof.
     { pose proof (skipn_length (idx st) pat) as L. rewrite Hs in L. fold len in L.
       rewrite app_length in L. cbn [length] in L. rewrite !app_length in L. lia. }
     destruct (run_prefix_q cs c k _ st cur fuel Ocs Oc Hs Hi ltac:(lia) Hg)
-      as (fuel1 & cur1 & st1 & Hf1 & Hf1' & Eloop & Hi1 & Hb1 & Hg1 & Sem1 & Hp1 & Fr1).
+      as (fuel1 & cur1 & st1 & Hf1 & Hf1' & Eloop & Hi1 & Hb1 & Hg1 & Sem1 & Hp1 & Fr1 & Eq1).
     rewrite Eloop.
     pose proof (skipn_app_len _ _ _ Hs) as Hs1. rewrite <- Hi1 in Hs1.
     assert (Hi1' : idx st1 <= len) by lia.
@@ -982,14 +1083,18 @@ Proof.
       apply (skipn_app_len (idx st1) (c :: qsym k :: ropt)). rewrite Hs1. cbn [app]. reflexivity. }
     destruct (IHb Okb post st2 (push cur1 (qop c k rel)) (S (S f)) Hs2 ltac:(lia) Ht ltac:(fold rest; lia)
                 (push_good _ _ Hg1 (qop_good c k rel)))
-      as (r & st' & E & Hi' & Hb' & Gr & Sem' & Fr').
+      as (r & st' & E & Hi' & Hb' & Gr & Sem' & Fr' & Eq').
     exists r, st'. split; [exact E|]. fold rest in Hi'. split; [lia|].
     split; [rewrite Hb'; subst st2; unfold adv, set_idx; cbn [hasbr]; exact Hb1|]. split; [exact Gr|].
     split.
-    2:{ intros H1 Hfr.
-        assert (Fq : framed (qop c k rel)) by (unfold qop; destruct rel; exact I).
-        destruct (Fr' ltac:(subst st2; unfold adv, set_idx; cbn [parens]; lia) (push_fr _ _ (Fr1 Hfr) Fq)) as [Fr Hp'].
-        split; [exact Fr|]. subst st2. unfold adv, set_idx in Hp'. cbn [parens] in Hp'. lia. }
+    2:{ split.
+        - intros H1 Hfr.
+          assert (Fq : framed (qop c k rel)) by (unfold qop; destruct rel; exact I).
+          destruct (Fr' ltac:(subst st2; unfold adv, set_idx; cbn [parens]; lia) (push_fr _ _ (Fr1 Hfr) Fq)) as [Fr Hp'].
+          split; [exact Fr|]. subst st2. unfold adv, set_idx in Hp'. cbn [parens] in Hp'. lia.
+        - intros p Hp. rewrite (Eq' p Hp), (push_eq cur1 (qop c k rel) p Hg1 (qop_good c k rel)), (Eq1 p Hp). cbn [DbO].
+          rewrite !flat_map_assoc. apply fm_ext_in. intros m Hm. rewrite <- flat_map_assoc. f_equal.
+          apply fm_ext_in. intros k0 Hk0. apply qop_eq. apply lit_le in Hk0. tauto. }
     intros p q Hp. rewrite (Sem' p q Hp). cbn [Db]. split.
     + intros (m & Hm & Hq). apply push_sem in Hm; auto using qop_good. destruct Hm as (m1 & Hm1 & Hm).
       apply (Sem1 p m1 Hp) in Hm1. destruct Hm1 as (m0 & Hm0 & Hm1).
@@ -1015,7 +1120,7 @@ Proof.
     assert (Hfol : exists c t, (if eol then 36%N else 94%N) :: rest ++ post = c :: t /\ (c = 40%N \/ (xpath = true /\ (c = 94%N \/ c = 36%N)))).
     { exists (if eol then 36%N else 94%N), (rest ++ post). split; [reflexivity|]. right. split; [exact Hx|]. destruct eol; auto. }
     destruct (run_prefix cs ((if eol then 36%N else 94%N) :: rest ++ post) st cur fuel Ocs Hfol Hs Hi ltac:(lia) Hg)
-      as (fuel1 & cur1 & st1 & Hf1 & Hf1' & Eloop & Hi1 & Hb1 & Hg1 & Sem1 & Hp1 & Fr1).
+      as (fuel1 & cur1 & st1 & Hf1 & Hf1' & Eloop & Hi1 & Hb1 & Hg1 & Sem1 & Hp1 & Fr1 & Eq1).
     rewrite Eloop.
     pose proof (skipn_app_len _ _ _ Hs) as Hs1. rewrite <- Hi1 in Hs1.
     assert (Hi1' : idx st1 <= len) by lia.
@@ -1032,13 +1137,17 @@ Proof.
     destruct (IHb Okb post (adv 1 st1) (push cur1 (if eol then OEol else OBol)) (S (S f))
                 ltac:(unfold adv, set_idx; cbn [idx]; exact Hs2) ltac:(unfold adv, set_idx; cbn [idx]; lia) Ht
                 ltac:(fold rest; lia) (push_good _ _ Hg1 (anchor_good eol)))
-      as (r & st' & E & Hi' & Hb' & Gr & Sem' & Fr').
+      as (r & st' & E & Hi' & Hb' & Gr & Sem' & Fr' & Eq').
     unfold adv, set_idx in Hi', Hb', Fr'. cbn [idx hasbr parens] in Hi', Hb', Fr'.
     exists r, st'. split; [exact E|]. fold rest in Hi'. split; [lia|]. split; [congruence|]. split; [exact Gr|].
     split.
-    2:{ intros H1 Hfr.
-        assert (Fq : framed (if eol then OEol else OBol)) by (destruct eol; exact I).
-        destruct (Fr' ltac:(lia) (push_fr _ _ (Fr1 Hfr) Fq)) as [Fr Hp']. split; [exact Fr|lia]. }
+    2:{ split.
+        - intros H1 Hfr.
+          assert (Fq : framed (if eol then OEol else OBol)) by (destruct eol; exact I).
+          destruct (Fr' ltac:(lia) (push_fr _ _ (Fr1 Hfr) Fq)) as [Fr Hp']. split; [exact Fr|lia].
+        - intros p Hp. rewrite (Eq' p Hp), (push_eq cur1 _ p Hg1 (anchor_good eol)), (Eq1 p Hp). cbn [DbO].
+          rewrite !flat_map_assoc. apply fm_ext_in. intros m Hm. rewrite <- flat_map_assoc. f_equal.
+          apply fm_ext_in. intros k0 Hk0. apply anchor_eq. apply lit_le in Hk0. tauto. }
     intros p q Hp. rewrite (Sem' p q Hp). cbn [Db]. split.
     + intros (m & Hm & Hq). apply push_sem in Hm; auto using anchor_good. destruct Hm as (m1 & Hm1 & Hm).
       apply (Sem1 p m1 Hp) in Hm1. destruct Hm1 as (m0 & Hm0 & Hm1).
@@ -1053,7 +1162,7 @@ Proof.
   - (* AOne *) intros b IHb Hok post st acc f1 f2 Hs Hi Ht Hf1 Hf2 Hacc. cbn [show_a ok_a] in *.
     destruct f1 as [|f1]; [lia|]. destruct f2 as [|f2]; [lia|].
     assert (Htb : term_b post) by (destruct Ht as [->|(t & ->)]; [left; auto|right; eauto]).
-    destruct (IHb Hok post st None f1 Hs Hi Htb ltac:(lia) I) as (r & st1 & E & Hi1 & Hb1 & Gr & Sem & Frb).
+    destruct (IHb Hok post st None f1 Hs Hi Htb ltac:(lia) I) as (r & st1 & E & Hi1 & Hb1 & Gr & Sem & Frb & Eqb).
     set (o := match r with Some c => c | None => ONothing end).
     exists o, st1, (o :: acc), st1. rewrite parse_branch_S, E. cbn [rbind]. split; [reflexivity|].
     assert (Hs1 : skipn (idx st1) pat = post) by (rewrite Hi1; apply (skipn_app_len _ _ _ Hs)).
@@ -1065,8 +1174,13 @@ Proof.
     assert (Go : good o) by (subst o; destruct r; [exact Gr|exact I]).
     split; [constructor; auto|]. split; [discriminate|].
     split.
-    2:{ intros H1 Hacc'. destruct (Frb H1 I) as [Fr Hp']. split; [|exact Hp'].
-        constructor; [|exact Hacc']. subst o. destruct r; [exact Fr|exact I]. }
+    2:{ split.
+        - intros H1 Hacc'. destruct (Frb H1 I) as [Fr Hp']. split; [|exact Hp'].
+          constructor; [|exact Hacc']. subst o. destruct r; [exact Fr|exact I].
+        - intros p Hp. change (DaO input ci multi (AOne b) p) with (DbO input ci multi b p).
+          cbn [rev]. rewrite flat_map_app. cbn [flat_map]. rewrite app_nil_r. f_equal.
+          pose proof (Eqb p Hp) as Eo. cbn [Ro flat_map] in Eo. rewrite app_nil_r in Eo. rewrite <- Eo.
+          subst o. destruct r; reflexivity. }
     intros p q Hp.
     assert (So : In q (R o p) <-> In q (Db input ci multi b p)).
     { subst o. pose proof (Sem p q Hp) as S0. destruct r as [c|]; cbn [Ro] in S0; [|change (R ONothing p) with [p]]; rewrite S0;
@@ -1080,14 +1194,14 @@ Proof.
     destruct f1 as [|f1]; [lia|]. destruct f2 as [|f2]; [lia|].
     rewrite <- app_assoc in Hs. cbn [app] in Hs.
     destruct (IHb Okb (124%N :: show_a a' ++ post) st None f1 Hs Hi ltac:(right; eexists; left; reflexivity) ltac:(lia) I)
-      as (r & st1 & E & Hi1 & Hb1 & Gr & Sem & Frb).
+      as (r & st1 & E & Hi1 & Hb1 & Gr & Sem & Frb & Eqb).
     set (o := match r with Some c => c | None => ONothing end).
     assert (Hs1 : skipn (idx st1) pat = 124%N :: show_a a' ++ post) by (rewrite Hi1; apply (skipn_app_len _ _ _ Hs)).
     destruct (skipn_step _ _ _ Hs1) as [Hs2 Hlt1].
     assert (Go : good o) by (subst o; destruct r; [exact Gr|exact I]).
     destruct (IHa Oka post (adv 1 st1) (o :: acc) f2 f2 ltac:(unfold adv, set_idx; cbn [idx]; exact Hs2)
                 ltac:(unfold adv, set_idx; cbn [idx]; lia) Ht ltac:(lia) ltac:(lia) ltac:(constructor; auto))
-      as (o2 & st2 & bs & st' & E1 & E2 & Hi' & Hb' & Gbs & Nbs & Sem2 & FrA).
+      as (o2 & st2 & bs & st' & E1 & E2 & Hi' & Hb' & Gbs & Nbs & Sem2 & FrA & EqA).
     exists o, st1, bs, st'. rewrite parse_branch_S, E. cbn [rbind]. split; [reflexivity|]. split.
     { rewrite branches_loop_S. fold len.
       replace (Nat.ltb (idx st1) len) with true by (symmetry; apply Nat.ltb_lt; exact Hlt1).
@@ -1096,10 +1210,17 @@ Proof.
     unfold adv, set_idx in Hi', Hb'. cbn [idx hasbr] in Hi', Hb'.
     split; [lia|]. split; [congruence|]. split; [exact Gbs|]. split; [exact Nbs|].
     split.
-    2:{ intros H1 Hacc'. destruct (Frb H1 I) as [Fr Hp1].
-        assert (Fo : framed o) by (subst o; destruct r; [exact Fr|exact I]).
-        unfold adv, set_idx in FrA. cbn [parens] in FrA.
-        destruct (FrA ltac:(lia) ltac:(constructor; auto)) as [Fbs Hp2]. split; [exact Fbs|lia]. }
+    2:{ split.
+        - intros H1 Hacc'. destruct (Frb H1 I) as [Fr Hp1].
+          assert (Fo : framed o) by (subst o; destruct r; [exact Fr|exact I]).
+          unfold adv, set_idx in FrA. cbn [parens] in FrA.
+          destruct (FrA ltac:(lia) ltac:(constructor; auto)) as [Fbs Hp2]. split; [exact Fbs|lia].
+        - intros p Hp. rewrite (EqA p Hp).
+          change (DaO input ci multi (ACons b a') p) with (DbO input ci multi b p ++ DaO input ci multi a' p).
+          cbn [rev]. rewrite flat_map_app. cbn [flat_map]. rewrite app_nil_r, <- app_assoc.
+          f_equal. f_equal.
+          pose proof (Eqb p Hp) as Eo. cbn [Ro flat_map] in Eo. rewrite app_nil_r in Eo. rewrite <- Eo.
+          subst o. destruct r; reflexivity. }
     intros p q Hp.
     assert (So : In q (R o p) <-> In q (Db input ci multi b p)).
     { subst o. pose proof (Sem p q Hp) as S0. destruct r as [c|]; cbn [Ro] in S0; [|change (R ONothing p) with [p]]; rewrite S0;
@@ -1109,16 +1230,44 @@ Proof.
     + intros [(x & Hx & Hq)|[Hq|Hq]]; [left; exists x; split; [right; exact Hx|exact Hq]|left; exists o; split; [left; reflexivity|apply So; exact Hq]|right; exact Hq].
 Qed.
 
+Lemma DqO_le c k rel p q : p <= n -> In q (DqO input ci multi c k rel p) -> q <= n.
+Proof.
+  intros Hp H. rewrite <- qop_eq in H by exact Hp. eapply (Rop_le_n input ci multi false K); [apply qop_good|exact Hp|exact H].
+Qed.
+Lemma DanO_le (eol : bool) p q : p <= n -> In q (DanO input ci multi eol p) -> q <= n.
+Proof.
+  intros Hp H. rewrite <- anchor_eq in H by exact Hp. eapply (Rop_le_n input ci multi false K); [apply anchor_good|exact Hp|exact H].
+Qed.
+
+(* the ordered denotation stays inside the input *)
+Lemma DO_le : (forall b p q, p <= n -> In q (DbO input ci multi b p) -> q <= n)
+           /\ (forall a p q, p <= n -> In q (DaO input ci multi a p) -> q <= n).
+Proof.
+  apply branch_alt_ind.
+  - intros cs p q Hp H. cbn [DbO] in H. apply lit_le in H. tauto.
+  - intros cs cap a IHa b IHb p q Hp H. cbn [DbO] in H. apply in_flat_map in H as (m & Hm & H).
+    apply in_flat_map in Hm as (m1 & Hm1 & Hm). apply lit_le in Hm1. eapply IHb; [|exact H]. eapply IHa; [|exact Hm]. tauto.
+  - intros cs c k rel b IHb p q Hp H. cbn [DbO] in H. apply in_flat_map in H as (m & Hm & H).
+    apply in_flat_map in Hm as (m1 & Hm1 & Hm). apply lit_le in Hm1. eapply IHb; [|exact H].
+    rewrite <- qop_eq in Hm by tauto. eapply (Rop_le_n input ci multi false K); [apply qop_good| |exact Hm]. tauto.
+  - intros cs eol b IHb p q Hp H. cbn [DbO] in H. apply in_flat_map in H as (m & Hm & H).
+    apply in_flat_map in Hm as (m1 & Hm1 & Hm). apply lit_le in Hm1. eapply IHb; [|exact H].
+    rewrite <- anchor_eq in Hm by tauto. eapply (Rop_le_n input ci multi false K); [apply anchor_good| |exact Hm]. tauto.
+  - intros b IHb p q Hp H. exact (IHb p q Hp H).
+  - intros b IHb a IHa p q Hp H. cbn [DaO] in H. apply in_app_iff in H as [H|H]; eauto.
+Qed.
+
 (* the whole pattern *)
 Theorem parse_expr_grammar a : ok_a xpath a = true -> pat = show_a a ->
   exists top st', parse_expr pat xpath ci single (8 * len + 16) true st_init = Ok (top, st')
     /\ idx st' = len /\ hasbr st' = false /\ good top
     /\ (forall p q, p <= n -> (In q (R top p) <-> In q (Da input ci multi a p)))
-    /\ framed top.
+    /\ framed top
+    /\ (forall p, p <= n -> R top p = DaO input ci multi a p).
 Proof.
   intros Hok Hpat. destruct model_parses as [_ PA].
   assert (Hl : len = length (show_a a)) by (unfold len; rewrite Hpat; reflexivity).
-  destruct (PA a Hok [] st_init [] (8 * len + 15) (8 * len + 15)) as (o1 & st1 & bs & st' & E1 & E2 & Hi & Hb & Gbs & Nbs & Sem & FrA).
+  destruct (PA a Hok [] st_init [] (8 * len + 15) (8 * len + 15)) as (o1 & st1 & bs & st' & E1 & E2 & Hi & Hb & Gbs & Nbs & Sem & FrA & EqA).
   - cbn [idx st_init skipn]. rewrite app_nil_r. exact Hpat.
   - cbn. lia.
   - left. reflexivity.
@@ -1131,7 +1280,10 @@ Proof.
     assert (Ga : good (alt_op bs)) by (apply alt_op_good; auto).
     split; [apply good_make_sequence; [exact Ga|exact I]|].
     split.
-    2:{ destruct (FrA ltac:(cbn; lia) (Forall_nil _)) as [Fbs _]. apply framed_make_sequence; [apply alt_op_framed; auto|exact I]. }
+    2:{ split.
+        - destruct (FrA ltac:(cbn; lia) (Forall_nil _)) as [Fbs _]. apply framed_make_sequence; [apply alt_op_framed; auto|exact I].
+        - intros p Hp. rewrite (R_make_sequence_eq (alt_op bs) OEnd p Ga I).
+          change (R OEnd) with (fun q : nat => [q]). rewrite fm_single, (alt_op_eq bs p Nbs), (EqA p Hp). reflexivity. }
     intros p q Hp. rewrite (R_make_sequence (alt_op bs) OEnd p q Ga I).
     split.
     + intros (m & Hm & [<-|[]]). apply (alt_op_sem bs p m Nbs) in Hm. apply (Sem p m Hp) in Hm.
